@@ -76,7 +76,7 @@ def gen_case(rng, stats, extra):
     text = asmgen.gen_unusual(rng)
     with driver.Scratch('c10') as scratch:
         why = accept_check(text, scratch)
-    stats.case(key=text, classes=['unusual', 'verdict:' + ('fail' if why else 'ok')], nontrivial=True, sample={'unusual_source': text[:500]})
+    stats.case(key=text, classes=['unusual', 'unusual:' + str(asmgen.LAST['kind']), 'verdict:' + ('fail' if why else 'ok')], nontrivial=True, sample={'unusual_source': text[:500]})
     if why:
         raise hyp.Failure(dict(kind='unusual', source=text), why)
 
